@@ -1,6 +1,7 @@
 package main
 
 import (
+	"strings"
 	"encoding/json"
 	"fmt"
 	"math/rand"
@@ -68,6 +69,46 @@ func clampK(k int) int {
 	return k
 }
 
+// c17Payload concretises payload tag k. The queue is payload-agnostic by its contract, so the strings range over
+// everything a caller can hand to Send / SendRaw: stanzas of the three kinds, stream-management elements in several
+// spellings, text that is not XML, the empty string, a 12 kB stanza. The class rotates with the scenario so that the
+// two tags of the exhaustive histories meet every class. Injective in k within one scenario.
+func c17Payload(k, tid int) string {
+	const T = 14
+	switch (k + tid) % T {
+	case 1:
+		return fmt.Sprintf("<r xmlns='urn:xmpp:sm:3' n='%d'/>", k)
+	case 2:
+		return fmt.Sprintf("<a xmlns='urn:xmpp:sm:3' h='%d'/>", k)
+	case 3:
+		return fmt.Sprintf("<enable xmlns=\"urn:xmpp:sm:3\" resume=\"true\" max='%d'/>", k)
+	case 4:
+		return fmt.Sprintf("<resume xmlns='urn:xmpp:sm:3' previd='some-id' h='%d'/>", k)
+	case 5:
+		return fmt.Sprintf("<sm:r xmlns:sm='urn:xmpp:sm:3' n='%d'/>", k)
+	case 6:
+		return fmt.Sprintf("<presence id='%d'><show>away</show></presence>", k)
+	case 7:
+		return fmt.Sprintf("<iq id='%d' type='get'><ping xmlns='urn:xmpp:ping'/></iq>", k)
+	case 8:
+		return fmt.Sprintf("not xml at all %d", k)
+	case 9:
+		return fmt.Sprintf("<message id='big%d'><body>%s</body></message>", k, strings.Repeat("x", 12000))
+	case 10:
+		if k == 1 {
+			return ""
+		}
+		if k == 2 {
+			return " "
+		}
+	case 11:
+		return fmt.Sprintf("  \n<r xmlns='urn:xmpp:sm:3'/><!-- %d -->", k)
+	case 12:
+		return fmt.Sprintf("<message id='%d' to='a@b/c'><r xmlns='urn:xmpp:sm:3'/></message>", k)
+	}
+	return fmt.Sprintf("<message id='p%d'/>", k)
+}
+
 func c17Run(w *tr.Writer, tid int, ops []c17Op) {
 	w.Emit(tr.Rec{"ev": "reset", "tid": tid})
 	q := stanza.NewUnAckQueue()
@@ -76,7 +117,7 @@ func c17Run(w *tr.Writer, tid int, ops []c17Op) {
 		rec := tr.Rec{"ev": "op", "op": o.Op, "k": clampK(o.K)}
 		switch o.Op {
 		case "push":
-			s := fmt.Sprintf("<message id='p%d'/>", o.K)
+			s := c17Payload(o.K, tid)
 			tags[s] = o.K
 			_ = q.Push(&stanza.UnAckedStz{Id: 7777, Stz: s}) // the Id passed in must be ignored
 			rec["ret"] = tr.Rec{"kind": "none"}
